@@ -153,7 +153,7 @@ func (h *Handlers) wrap(kind byte) jrpc2.Handler {
 			return nil, jrpc2.Errorf(jrpc2.ParseError, "P:%s", tag)
 		case 'u':
 			return UnmarshalableResult{}, nil
-		case 'b': // an error whose Data is not valid JSON: the reply cannot be encoded
+		case 'b': // an error whose Data is not valid JSON: it cannot be encoded as it is
 			return nil, &jrpc2.Error{Code: 9, Message: "B:" + tag, Data: json.RawMessage("{bad")}
 		case 'x': // a pre-encoded result, pretty-printed over several lines
 			return json.RawMessage("{\n  \"t\": " + jstr(tag) + ",\n  \"a\": [ 1,\n 2 ]\n}"), nil
